@@ -19,7 +19,7 @@ EXC_CLASSES = {
     "BaseExceptionGroup": 10, "TypeError": 11, "KeyError": 12, "ValueError": 13, "TimeoutError": 14,
 }
 CMP = {ast.Eq: 0, ast.NotEq: 1, ast.Lt: 2, ast.LtE: 3, ast.Gt: 4, ast.GtE: 5}
-B = dict(sub=24, delitem=20, movetoend=21, popfirst=22, pair=23, anyinst=17, add=18, isnumber=19, get=16, len=0, append=1, appendleft=2, extend=3, popleft=4, head=5, contains=6, getitem=7, setitem=8, isinstance=9,
+B = dict(excsonly=26, excsexcept=25, sub=24, delitem=20, movetoend=21, popfirst=22, pair=23, anyinst=17, add=18, isnumber=19, get=16, len=0, append=1, appendleft=2, extend=3, popleft=4, head=5, contains=6, getitem=7, setitem=8, isinstance=9,
          newexc=10, index1=11, values=12, concat=13, dictoftypes=14, type=15)
 
 
@@ -231,6 +231,36 @@ class Tr:
             if ps:
                 raise Unrecognised("effectful subscript")
             return pv, f"(Expr.call {B['getitem']} {self.lst([ev, es])})"
+        if isinstance(n, ast.ListComp):
+            # `[x for x in <xs> if isinstance(x, BaseException) and x is not <v>]` – the one comprehension of the subset
+            g = n.generators[0] if len(n.generators) == 1 else None
+            if g is not None and not g.is_async and isinstance(g.target, ast.Name) and isinstance(n.elt, ast.Name) \
+                    and n.elt.id == g.target.id and len(g.ifs) == 1 and isinstance(g.ifs[0], ast.BoolOp) \
+                    and isinstance(g.ifs[0].op, ast.And) and len(g.ifs[0].values) == 2:
+                a, b = g.ifs[0].values
+                t = g.target.id
+                if isinstance(a, ast.Call) and isinstance(a.func, ast.Name) and a.func.id == "isinstance" and len(a.args) == 2 \
+                        and not a.keywords and isinstance(a.args[0], ast.Name) and a.args[0].id == t \
+                        and isinstance(a.args[1], ast.Name) and a.args[1].id == "BaseException" \
+                        and isinstance(b, ast.Compare) and len(b.ops) == 1 and isinstance(b.ops[0], ast.IsNot) \
+                        and isinstance(b.left, ast.Name) and b.left.id == t \
+                        and t not in {x.id for x in ast.walk(b.comparators[0]) if isinstance(x, ast.Name)} \
+                        and t not in {x.id for x in ast.walk(g.iter) if isinstance(x, ast.Name)}:
+                    pxs, exs = self.expr(g.iter)
+                    pv, ev = self.expr(b.comparators[0])
+                    if pv:
+                        raise Unrecognised("effectful comprehension")
+                    return pxs, f"(Expr.call {B['excsexcept']} {self.lst([exs, ev])})"
+            if g is not None and not g.is_async and isinstance(g.target, ast.Name) and isinstance(n.elt, ast.Name) \
+                    and n.elt.id == g.target.id and len(g.ifs) == 1:
+                a, t = g.ifs[0], g.target.id
+                if isinstance(a, ast.Call) and isinstance(a.func, ast.Name) and a.func.id == "isinstance" and len(a.args) == 2 \
+                        and not a.keywords and isinstance(a.args[0], ast.Name) and a.args[0].id == t \
+                        and isinstance(a.args[1], ast.Name) and a.args[1].id == "BaseException" \
+                        and t not in {x.id for x in ast.walk(g.iter) if isinstance(x, ast.Name)}:
+                    pxs, exs = self.expr(g.iter)      # `[x for x in <xs> if isinstance(x, BaseException)]`
+                    return pxs, f"(Expr.call {B['excsonly']} {self.lst([exs])})"
+            raise Unrecognised("list comprehension of another shape")
         if isinstance(n, ast.NamedExpr):
             p, e = self.expr(n.value)
             self.note_alias(n.target, n.value)
